@@ -344,20 +344,30 @@ var zzJXPaths = []string{
 	"/a/*",
 	"//*[.='1']",
 	"/a[T]",
+	"/*[b='1'][a]",
 }
+
+// zzJBase: the candidates (paths without the final step's filters), written out by hand.
+var zzJBase = []string{"/a", "/*", "//b", "/*", "/a/*", "//*", "/a", "/*"}
+
+// zzPads: a target xpath may come with surrounding whitespace (it is trimmed)
+var zzPads = [][2]string{{"", ""}, {" ", " "}, {"", "\n"}, {"\t", " \t"}}
 
 // C04JsonSelect: JSON counterpart of C04XmlSelect.
 func C04JsonSelect() {
 	D := zz.Param("D", 2)
 	W := zz.Param("W", 2)
-	xp := zzJXPaths[zz.NondetChoice("xpath", len(zzJXPaths))]
+	xi := zz.NondetChoice("xpath", len(zzJXPaths))
+	xp := zzJXPaths[xi]
 	v := zzValue(D, W)
 	refRoot := CreateJSONNode(DocumentNode, "", JSONRoot)
 	v.build(refRoot)
-	cands, err := MatchAll(refRoot, removeLastFilterInXPath(xp))
+	cands, err := MatchAll(refRoot, zzJBase[xi])
 	zz.Assume(err == nil)
 	full, err := MatchAll(refRoot, xp)
 	zz.Assume(err == nil)
+	pad := zzPads[zz.NondetChoice("padding", len(zzPads))]
+	xp = pad[0] + xp + pad[1]
 	var want []string
 	for _, c := range cands {
 		if zzHasAncestorIn(c, cands) {
